@@ -6,8 +6,8 @@ use crate::node::*;
 use cdecao::caobab::verif_hooks::{precompute, problem_data, room_feasibility, VNode};
 use serde_json::json;
 
-const GF: [f32; 14] = [1.0, 1.2, 2.4, 0.3, 1.1, 1.7, 0.7, 1.3, 2.2, 1.05, 0.9, 3.3, 2.5, 1.5];
-const GO: [f32; 8] = [0.0, 0.0, 0.1, 0.3, 1.0, 2.5, 7.7, 12.0];
+const GF: [f32; 16] = [1.0, 1.2, 2.4, 0.3, 1.1, 1.7, 0.7, 1.3, 2.2, 1.05, 0.9, 3.3, 2.5, 1.5, 1.000_122_070_312_5, 1.000_976_562_5];
+const GO: [f32; 11] = [0.0, 0.0, 0.1, 0.3, 1.0, 2.5, 7.7, 12.0, 0.000_976_562_5, 3.000_976_562_5, 0.000_488_281_25];
 
 /// (factor, offset, m, room): the forward computation says that m people fit into the room (ceil(offset + factor * m) <= room) but the
 /// inverse floor((room - offset) / factor) is smaller than m -- the rounding-critical combinations of the two binary32 computations
@@ -79,7 +79,11 @@ pub fn run(seed: u64, count: usize, shards: usize, outdir: &str) {
             };
             crit_rooms.push(critical.map(|t| t.3));
             let (min, max, ninstr, instr, fbits, obits, att) = if wide { (0, 3, 0, Vec::new(), 1.0f32.to_bits(), 0.0f32.to_bits(), 2) } else { (min, max, ninstr, instr, fbits, obits, att) };
-            let cancelled_like = !wide && att == 0 && r.chance(1, 2);
+            // every fifth case: the first course is FIXED and EMPTY with a positive offset (it needs a room although nobody is assigned)
+            let fixed_empty = !wide && i % 5 == 3 && c == 0;
+            let obits = if fixed_empty { (*r.pick(&[1.0f32, 2.5, 3.0, 12.0, 0.5, 6.0])).to_bits() } else { obits };
+            let (ninstr, instr) = if fixed_empty { (0, Vec::new()) } else { (ninstr, instr) };
+            let cancelled_like = fixed_empty || (!wide && att == 0 && r.chance(1, 2));
             let people = if cancelled_like { 0 } else { att + ninstr };
             for _ in 0..people {
                 a.push(Some(c));
@@ -88,7 +92,10 @@ pub fn run(seed: u64, count: usize, shards: usize, outdir: &str) {
                 a.push(None);
             }
             next_p += people.max(ninstr);
-            let fixed = !wide && r.chance(1, 6);
+            let fixed = fixed_empty || (!wide && r.chance(1, 6));
+            if fixed_empty {
+                *hist.entry(String::from("fixed_empty_course_with_offset")).or_insert(0) += 1;
+            }
             let n = people;
             sizes.push(if n == 0 && !fixed { 0 } else { (f32::from_bits(obits) + f32::from_bits(fbits) * n as f32).ceil() as usize });
             courses.push(ICourse { min, max, instr, fixed, fbits, obits });
